@@ -83,7 +83,10 @@ def _gen_selection(p: Any, present: list[str], victim: str) -> dict[str, Any] | 
         return {"form": form, "pairs": [list(gen.HEADERS[h]) for h in p.sample(others, k)]}
     if x < 0.75:
         k = p.randint(1, len(present))
-        return {"form": form, "pairs": [list(gen.HEADERS[h]) for h in p.sample(present, k)]}
+        pairs = [list(gen.HEADERS[h]) for h in p.sample(present, k)]
+        if p.random() < 0.25:
+            pairs.append(list(pairs[0]))  # duplicates are legal in a Sequence
+        return {"form": form, "pairs": pairs}
     if x < 0.9:
         k = p.randint(1, len(present))
         hs = p.sample(present, k) + p.sample(absent, p.randint(1, 3))
@@ -240,10 +243,16 @@ def execute(plan: dict[str, Any]) -> dict[str, Any]:
                     raise
                 except Exception as e:  # noqa: BLE001
                     err = e
+                mutated = world.selection_was_mutated()
                 sched.end_op(client)
                 n_ops += 1
                 with sched.atomic(client):
                     sched.record("op", ci, k, "exc" if err else "ok")
+                    if mutated:
+                        violations.append({"sig": f"C13/selection-mutated/{_shape(op['select'], headers)}/-",
+                                           "detail": f"client {ci} op {k}: the caller's selection object was "
+                                                     "modified by the parse (a second parse with the same "
+                                                     "object would select something else)"})
                     if op["select"] is not None or op["file"] == "D":
                         nontrivial.append(rng.digest([plan[op["file"]], op["select"]]))
                     if op["file"] == "D":
